@@ -51,7 +51,9 @@ def rand_base(rng):
         b["paths"] = {"/legacy": {"get": {"responses": {"200": {"description": "ok"}}}}}
     else:
         b["paths"] = {}
-    legacy_ref = b["paths"] and rng.random() < 0.5
+    if rng.random() < 0.3:          # a specification extension of the Paths Object itself: replaced with the paths
+        b["paths"]["x-paths-ext"] = {"owner": "legacy"}
+    legacy_ref = "/legacy" in b["paths"] and rng.random() < 0.5
     if rng.random() < 0.8:
         c = {}
         if rng.random() < 0.6:
@@ -92,7 +94,7 @@ FULL_BASE = {
     "tags": [{"name": "t0", "description": "tag", "externalDocs": {"url": "https://docs.example.com/t0"}}],
     "externalDocs": {"url": "https://docs.example.com", "description": "docs"},
     "x-top-ext": {"a": [1, 2]},
-    "paths": {"/legacy": {"get": {"responses": {"200": {"description": "ok"}}}}},
+    "paths": {"/legacy": {"get": {"responses": {"200": {"description": "ok"}}}}, "x-paths-ext": {"owner": "legacy"}},
     "components": {
         "schemas": {"Legacy": {"type": "string"}},
         "responses": {"NotFound": {"description": "nf"}},
@@ -123,7 +125,7 @@ def check(ctx):
         ps = [dict(v["input"]["program"], features=[], ast=None)]
         bases = [v["input"]["base"]]
     else:
-        n = 1500 if ctx.thorough else 250
+        n = 4500 if ctx.thorough else 250
         ps = progs.gen_programs(ctx, n)
         # programs without any component, to meet bases that carry schemas
         for i in range(0, n, 10):
@@ -140,7 +142,7 @@ def check(ctx):
     if not ctx.replay:
         # the JSON-level theorems are about Model/BuilderBase.v: tie it to Builder::with_base (identical merged documents)
         from . import evaltie
-        k = 600 if ctx.thorough else 120
+        k = 1800 if ctx.thorough else 120
         evaltie.run(ctx, [dict({"mods": p["mods"], "main": p["main"]}, base=json.dumps(b)) for p, b in list(zip(ps, bases))[:k]])
     plain = progs.compile_many(ps)
     with_base = progs.compile_many([dict(p, base=json.dumps(b)) for p, b in zip(ps, bases)])
